@@ -693,7 +693,7 @@ pub fn history(prog: BoxedStrategy<crate::exec::ProgCase>) -> BoxedStrategy<crat
                     }
                 }
             }
-            HistCase { hist: Hist { first, pre, via, mid }, prog: p }
+            HistCase { hist: Hist { first, pre, via, mid, failed: None }, prog: p }
         })
         .boxed()
 }
